@@ -99,6 +99,58 @@ def eval_stage(run, ck, topic, n_quick, n_thorough, parts=8, extra=None, env=Non
     eval_violations(run, ck, verdicts, recs, topic)
 
 
+def vm_stage(run, ck, topic, n_quick, n_thorough, extra=None):
+    """Trace_VM on cases run in form "vm": trace invariants (verdicts), step conformance of VM.tla (drift,
+    diagnostic), and the real bytecode under all valuations of three variables against Eval; a disagreeing
+    valuation is executed on the real interpreter and judged by Trace_Eval like any other case."""
+    full = os.path.join(run.work, topic + ".vm.all.ndjson")
+    out = os.path.join(run.work, topic + ".vm.ndjson")
+    want = n_thorough if run.thorough else n_quick
+    run.drive(topic, want, full, extra=(extra or []) + ["--vm"])
+    lines = [x for x in open(full).read().split("\n") if x.strip()]
+    stride = max(1, len(lines) // want)
+    off = run.seed % stride
+    with open(out, "w") as f:          # an evenly spread sample (the exhaustive families are far larger than what is traced)
+        f.write("\n".join(lines[off::stride][:want]) + "\n")
+    os.remove(full)
+    verdicts, recs = run.validate(out, "Trace_VM", parts=10, chunk=6, label=topic + "/vm", collect=("CAND", "DRIFT"))
+    simple_violations(run, ck, verdicts, recs, topic + "/vm")
+    cands, drift, summ = run.collected["CAND"], run.collected["DRIFT"], run.last_summary
+    st = run.stages[-1]
+    st.update({"vm_steps": summ[2], "model_drift": summ[3], "candidate_valuations": summ[4], "valuations_of_real_bytecode": summ[5]})
+    run.evaluations += summ[5]
+    for d in drift[:5]:
+        ck.log("[vm] model drift (diagnostic): %s" % d)
+    if cands:
+        by_id = {}
+        for ln in open(out).read().split("\n"):
+            if ln.strip():
+                j = json.loads(ln)
+                by_id[j["id"]] = j
+        cf = os.path.join(run.work, topic + ".cand.ndjson")
+        n = 0
+        with open(cf, "w") as f:
+            for c in cands[:2000]:
+                rec = by_id.get(c[1])
+                if rec is None:
+                    continue
+                val = json.loads(c[2])
+                bind = dict(rec.get("bind", {}))
+                for k, v in val.items():
+                    if v.get("t") == "unbound":
+                        bind.pop(k, None)
+                    else:
+                        bind[k] = v
+                n += 1
+                case = {"id": "%s#v%d" % (rec["id"], n), "tree": rec["tree"], "bind": bind, "progs": rec.get("progs", {}),
+                        "funcs": rec.get("funcs", {}), "forms": ["bound"]}
+                f.write(json.dumps(case) + "\n")
+        of = os.path.join(run.work, topic + ".cand.obs.ndjson")
+        run.replay(cf, of)
+        v2, r2 = run.validate(of, "Trace_Eval", parts=8, label=topic + "/vm candidates")
+        eval_violations(run, ck, v2, r2, topic)
+
+
 def replay_one(run, path, ck):
     """Re-run one recorded case against the current tree and re-validate it."""
     payload = json.load(open(path))
@@ -138,7 +190,10 @@ def c04(run, ck):
 
 
 def c05(run, ck):
+    # design level: the compilation schemes on the model VM agree with the reference evaluator on every small tree
+    run.model_check("MC_Lazy", cfg="MC_Lazy_thorough.cfg" if run.thorough else "MC_Lazy.cfg", workers=8)
     eval_stage(run, ck, "lazy", 3000, 60000)
+    vm_stage(run, ck, "lazy", 400, 6000)
     return dict(rule="all ||/&&/?:/! trees with <= 2 operators over 6 atom classes (each atom its own recording function, and as variables / literals), "
                      "sampled 3- and 4-operator trees, the truthiness table in every consuming context, match x two patterns", assumptions=[])
 
@@ -151,6 +206,7 @@ def c06(run, ck):
 
 def c07(run, ck):
     eval_stage(run, ck, "macros", 1500, 30000)
+    vm_stage(run, ck, "macros", 250, 3000)
     return dict(rule="every macro x lists of length 0..4 x body shapes (hit position k, failing at k, outer variable, stored program, nested macro with the same / another variable, unbound, recording function); "
                      "exists_one with hits at every pair of positions; reduce with non-commutative steps; equal maps built four ways must iterate identically; random lists up to 64 elements",
                 assumptions=[])
@@ -158,12 +214,19 @@ def c07(run, ck):
 
 def c08(run, ck):
     eval_stage(run, ck, "hascoal", 1500, 30000)
+    vm_stage(run, ck, "hascoal", 400, 4000)
     return dict(rule="field paths of depth 0..4 (by .f and by ['f']) x binding configurations x 15 contexts; all coalesce argument lists of length 0..5 over {present, null, absent, failing} as recording calls",
                 assumptions=[])
 
 
 def c09(run, ck):
     eval_stage(run, ck, "fold", 1200, 25000)
+    vm_stage(run, ck, "fold", 250, 3000)
+    # the clock is read at every execution: wrappers of now()/timestamp() up to three deep (all chains), deeper random chains
+    out = os.path.join(run.work, "clock.ndjson")
+    run.drive("clock", 3000 if run.thorough else 300, out)
+    verdicts, recs = run.validate(out, "Trace_BC", cfg="Trace_BC.cfg", parts=8, label="clock")
+    simple_violations(run, ck, verdicts, recs, "clock", describe=lambda rec, v: (rec.get("text") or "")[:60])
     return dict(rule="generated expressions over <= 4 variables x every subset of the variables replaced by literals of their bound values (all must lie in the specification's outcome); "
                      "targeted programs for every construct the compiler folds", assumptions=[])
 
@@ -190,12 +253,21 @@ def c10(run, ck):
     if not verdicts:
         # every path of every block: the AbsVM state machine with the C10 invariants
         run.model_check("Trace_BC", cfg="Trace_BC_walk.cfg", env={"TRACE": out}, workers=6)
+    # the VM's own bounds checks: instruction sequences no compiler emitted, and real programs with one jump perturbed
+    inj = os.path.join(run.work, "inject.ndjson")
+    run.drive("inject", 30000 if run.thorough else 2000, inj)
+    v2, r2 = run.validate(inj, "Trace_Inject", parts=8, label="inject", collect=("DRIFT",))
+    simple_violations(run, ck, v2, r2, "inject")
+    run.stages[-1].update({"out_of_range_jumps_executed": run.last_summary[2], "model_drift": run.last_summary[3]})
+    # executed paths of generated programs: pc inside the block and increasing, operands present (trace invariants of Trace_VM)
+    vm_stage(run, ck, "fold", 250, 3000)
     return dict(rule="real bytecode of generated programs (every operator, nested ||/&&/?:/match, calls, macros, f-strings, clock calls): forward height analysis per block, then the AbsVM "
                      "state machine explores both successors of every conditional jump; states = reachable (program, block, pc, height)", assumptions=[])
 
 
 def c12(run, ck):
     eval_stage(run, ck, "refs", 0, 0, parts=8)
+    vm_stage(run, ck, "refs", 120, 1500)
     return dict(rule="every reference graph on <= 3 programs (each node: one successor or a leaf) with every referencing construct on the edges, sampled out-degree-2 graphs on <= 4 programs, "
                      "chains of length 1..64 through each construct, every case in a child process (main thread and a 2 MB thread); name-collision configurations of one name as type/variable/program/function/macro/map field",
                 assumptions=["the default stack sizes of this machine (8 MB main thread, 2 MB spawned thread)"])
